@@ -1,7 +1,7 @@
 (* Prop_C05.v — property theorems for C05, and nothing else: each statement is closed
    by `exact <lemma>` and followed by Print Assumptions. *)
 From Dig Require Import Base Sig State Graph GraphProofs Register Resolve Run Spec Check
-  ErrTable Err ErrTableCheck P_Frame P_Term.
+  ErrTable Err ErrTableCheck P_Frame P_Term P_Reg P_C05.
 
 (* ---- C05: the cycle detector decides cyclicity and returns real cycles;
         non-deferred containers never hold a cyclic scope graph ---- *)
@@ -38,3 +38,19 @@ Theorem C05_quiescent : forall cfg b du h,
   (forall d, d_state (get_dec (state_after cfg b du h) d) <> DOnStack).
 Proof. exact P_Term.quiescent_state_after. Qed.
 Print Assumptions C05_quiescent.
+
+(* ---- C05, container level: the cycle checker accepts every model trace: no
+        crash or divergence; a Provide closing a cycle in the view of the target
+        or of any descendant scope is rejected (non-deferred) and otherwise
+        accepted; whenever a cycle is reported (Provide, the static check of
+        Invoke, or the run-time guard) even the most permissive graph is cyclic ---- *)
+Theorem C05_holds : forall cfg b du h,
+  wf_scopes h = true -> wf_keys h = true -> P_Once.wf_fns h = true ->
+  chk_C05 cfg h (map obs_of (run cfg b du h)) = [].
+Proof. exact P_C05.chk_C05_ok. Qed.
+Print Assumptions C05_holds.
+
+Theorem C05_views_are_the_graph_holders : forall st r a, RegRel st r -> GN st ->
+  (cyclic (scope_graph st a) <-> cyclic (view_graph r a (r_ctors r))).
+Proof. exact P_C05.contraction. Qed.
+Print Assumptions C05_views_are_the_graph_holders.
